@@ -94,6 +94,8 @@ METAS = {
     'm1': {'a': 1, 'b': 'text', 'c': 2.5, 'flag': True},
     'm2': {'list': [1, 2, 3], 'nested': [[1, 2], [3, 4]], 'none': None, 'neg': -7},
     'm3': {'keep': 'yes', 'obj': '<<object>>', 'arr': '<<ndarray>>'},   # object() is not serialisable: may be dropped
+    # falsy and boundary values
+    'm4': {'zero': 0, 'fzero': 0.0, 'empty': '', 'no': False, 'nolist': [], 'st': 'st__not-a-marker?'},
 }
 
 
